@@ -254,11 +254,20 @@ namespace Cloud
 
 def empty (sid : Val) : Cloud := ⟨[], none, false, sid⟩
 
+/-- the transaction has already written the key at a higher version -/
+def pendingLower (lg : Tab) (k : Key) (v : Nat) : Bool :=
+  match lookup lg k with
+  | some (pv, _) => decide (v < pv)
+  | none => false
+
 def putV (c : Cloud) (k : Key) (v : Nat) (x : Val) : Cloud × Res :=
   if c.poisoned then (c, .panic) else
   match c.log with
   | none => ({ c with poisoned := true }, .panic)      -- expect("not in transaction")
   | some lg =>
+    -- a version below the one this transaction already wrote for the key is refused (F13 fix);
+    -- an equal one is let through: `put` rewrites the pending entry at committed+1
+    if pendingLower lg k v then (c, .mismatch) else
     match lookup c.loc k with
     | none => ({ c with log := some (insert lg k (v, x)) }, .ok)
     | some (v0, x0) =>
